@@ -3,6 +3,7 @@
 //   t=<tag> r=<slots> a0=<slots> ... cp=<ids copied> mv=<ids moved out of argument objects> ram=<ids touched after move>
 #include "common/vh.hpp"
 
+#include <fcppt/function_impl.hpp>
 #include <fcppt/move_clear.hpp>
 #include <fcppt/move_if.hpp>
 #include <fcppt/move_if_rvalue.hpp>
@@ -18,6 +19,18 @@
 #include <fcppt/container/make_move_range.hpp>
 #include <fcppt/container/pop_back.hpp>
 #include <fcppt/container/pop_front.hpp>
+#include <fcppt/either/apply.hpp>
+#include <fcppt/either/bind.hpp>
+#include <fcppt/either/failure_opt.hpp>
+#include <fcppt/either/first_success.hpp>
+#include <fcppt/either/from_optional.hpp>
+#include <fcppt/either/join.hpp>
+#include <fcppt/either/map.hpp>
+#include <fcppt/either/map_failure.hpp>
+#include <fcppt/either/match.hpp>
+#include <fcppt/either/object.hpp>
+#include <fcppt/either/sequence.hpp>
+#include <fcppt/either/success_opt.hpp>
 #include <fcppt/optional/alternative.hpp>
 #include <fcppt/optional/apply.hpp>
 #include <fcppt/optional/bind.hpp>
@@ -795,6 +808,294 @@ std::string op_optvec(std::string const &_op, line_t const &L)
   return finish("-", slots(r), {optvec_slots(v)}, log);
 }
 
+// ---------------------------------------------------------------- move_if / move_if_rvalue themselves
+
+template <typename T>
+std::string op_moveif(std::string const &_op, line_t const &L)
+{
+  need(L.args.size() == 1 && L.n(0) == 1 && L.par.size() == 1);
+  T x{L.args[0].ids[0]};
+  mark(x);
+  char const cat{L.cat(0)};
+  int const k{L.par[0]};
+  g_log.clear();
+  // 'l' and 'i' are both a non-const lvalue; 'i' says that the caller asked for the move
+  auto const go{[&](auto _f) -> T
+                {
+                  switch (cat)
+                  {
+                  case 'r':
+                    return T(_f(std::move(x)));
+                  case 'l':
+                  case 'i':
+                    return T(_f(x));
+                  case 'c':
+                    if constexpr (T::copyable)
+                      return T(_f(std::as_const(x)));
+                    else
+                      throw bad_op{};
+                  default:
+                    throw bad_op{};
+                  }
+                }};
+#define MOVE_IF(C) go([](auto &&a) -> decltype(auto) { return fcppt::move_if<C>(FWD(a)); })
+#define MOVE_IF_RV(Ty) go([](auto &&a) -> decltype(auto) { return fcppt::move_if_rvalue<Ty>(FWD(a)); })
+  auto const run{[&]() -> T
+                 {
+                   if (_op == "moveif")
+                   {
+                     need((k == 0 || k == 1) && (cat != 'l' || k == 0) && (cat != 'i' || k == 1));
+                     if (k == 1)
+                       return MOVE_IF(true);
+                     if constexpr (T::copyable)
+                       return MOVE_IF(false);
+                     else
+                     {
+                       need(cat == 'r');
+                       return T(fcppt::move_if<false>(std::move(x)));
+                     }
+                   }
+                   need(k >= 0 && k <= 3 && (cat != 'l' || k <= 1) && (cat != 'i' || k >= 2));
+                   if (k >= 2)
+                     return k == 2 ? MOVE_IF_RV(T) : MOVE_IF_RV(T &&);
+                   if constexpr (T::copyable)
+                     return k == 0 ? MOVE_IF_RV(T &) : MOVE_IF_RV(T const &);
+                   else
+                   {
+                     need(cat == 'r');
+                     return k == 0 ? T(fcppt::move_if_rvalue<T &>(std::move(x))) : T(fcppt::move_if_rvalue<T const &>(std::move(x)));
+                   }
+                 }};
+  T const r{run()};
+  event_log const log{g_log};
+  slots_t sr, sa;
+  sr.add(r);
+  sa.add(x);
+  return finish("-", sr.str(), {sa.str()}, log);
+}
+
+// ---------------------------------------------------------------- either
+
+template <typename T>
+struct fail
+{
+  T t;
+  int read() const { return t.read(); }
+  fail derive(int const _k) const { return fail{t.derive(_k)}; }
+};
+
+template <typename T>
+using eith = fcppt::either::object<fail<T>, T>;
+
+template <typename T>
+eith<T> mk_eith(int const _id, int const _side)
+{
+  need(_side == 0 || _side == 1);
+  return _side == 1 ? eith<T>{T{_id}} : eith<T>{fail<T>{T{_id}}};
+}
+
+template <typename T>
+void mark(eith<T> &_e)
+{
+  if (_e.has_success())
+    mark(_e.get_success_unsafe());
+  else
+    mark(_e.get_failure_unsafe().t);
+}
+
+template <typename T>
+T const &eith_tok(eith<T> const &_e)
+{
+  return _e.has_success() ? _e.get_success_unsafe() : _e.get_failure_unsafe().t;
+}
+
+template <typename T>
+std::string eith_slots(eith<T> const &_e)
+{
+  slots_t s;
+  s.add(eith_tok(_e));
+  return s.str();
+}
+
+template <typename T>
+std::string eith_tag(eith<T> const &_e)
+{
+  return _e.has_success() ? "S" : "F";
+}
+
+// fail<T> -> T and T -> T, moving an rvalue through and deriving from an lvalue
+struct to_tok
+{
+  template <typename U>
+  auto operator()(U &&_u) const
+  {
+    if constexpr (requires { _u.t; })
+      return thru{}(fcppt::move_if_rvalue<U>(_u.t));
+    else
+      return thru{}(std::forward<U>(_u));
+  }
+};
+
+template <typename T>
+std::string op_eith1(std::string const &_op, line_t const &L)
+{
+  need(L.args.size() == 1 && L.n(0) == 1 && !L.par.empty());
+  int const side{L.par[0]};
+  auto e{mk_eith<T>(L.args[0].ids[0], side)};
+  mark(e);
+  g_log.clear();
+  if (_op == "eithmap" || _op == "eithmapfail" || _op == "eithbind" || _op == "eithjoinflat")
+  {
+    int const fside{_op == "eithbind" ? (need(L.par.size() == 2), L.par[1]) : (need(L.par.size() == 1), 0)};
+    need(fside == 0 || fside == 1);
+    eith<T> const r{with_cat<T::copyable>(
+        L.cat(0),
+        e,
+        [&](auto &&x)
+        {
+          if (_op == "eithmap")
+            return fcppt::either::map(FWD(x), thru{});
+          if (_op == "eithmapfail")
+            return fcppt::either::map_failure(FWD(x), thru{});
+          return fcppt::either::bind(
+              FWD(x),
+              [fside](auto &&v)
+              {
+                v.read();
+                return fside == 1 ? eith<T>{thru{}(FWD(v))} : eith<T>{fail<T>{thru{}(FWD(v))}};
+              });
+        })};
+    event_log const log{g_log};
+    return finish(eith_tag(r), eith_slots(r), {eith_slots(e)}, log);
+  }
+  if (_op == "eithmatch")
+  {
+    need(L.par.size() == 1);
+    slots_t sr;
+    T const r{with_cat<true>(L.cat(0), e, [](auto &&x) { return fcppt::either::match(FWD(x), to_tok{}, to_tok{}); })};
+    event_log const log{g_log};
+    sr.add(r);
+    return finish("-", sr.str(), {eith_slots(e)}, log);
+  }
+  if (_op == "eithsuccopt")
+  {
+    need(L.par.size() == 1);
+    opt<T> const r{with_cat<T::copyable>(L.cat(0), e, [](auto &&x) { return fcppt::either::success_opt(FWD(x)); })};
+    event_log const log{g_log};
+    return finish(opt_tag(r), opt_slots(r), {eith_slots(e)}, log);
+  }
+  if (_op == "eithfailopt")
+  {
+    need(L.par.size() == 1);
+    opt<fail<T>> const r{with_cat<T::copyable>(L.cat(0), e, [](auto &&x) { return fcppt::either::failure_opt(FWD(x)); })};
+    event_log const log{g_log};
+    slots_t sr;
+    if (r.has_value())
+      sr.add(r.get_unsafe().t);
+    return finish(opt_tag(r), sr.str(), {eith_slots(e)}, log);
+  }
+  throw bad_op{};
+}
+
+template <typename T>
+std::string op_eithfromopt(line_t const &L)
+{
+  need(L.args.size() == 1 && L.par.empty());
+  auto o{mk_opt<T>(L.args[0])};
+  mark(o);
+  g_log.clear();
+  eith<T> const r{with_cat<T::copyable>(
+      L.cat(0), o, [](auto &&x) { return fcppt::either::from_optional(FWD(x), [] { return fail<T>{T{1000}}; }); })};
+  event_log const log{g_log};
+  return finish(eith_tag(r), eith_slots(r), {opt_slots(o)}, log);
+}
+
+template <typename T>
+std::string op_eithjoin(line_t const &L)
+{
+  // par[0]: 0 = F x, 1 = S (F x), 2 = S (S x)
+  need(L.args.size() == 1 && L.n(0) == 1 && L.par.size() == 1 && L.par[0] >= 0 && L.par[0] <= 2);
+  using outer = fcppt::either::object<fail<T>, eith<T>>;
+  int const id{L.args[0].ids[0]};
+  outer e{L.par[0] == 0 ? outer{fail<T>{T{id}}} : outer{mk_eith<T>(id, L.par[0] - 1)}};
+  auto const tok{[](outer &_o) -> T & { return _o.has_failure() ? _o.get_failure_unsafe().t : const_cast<T &>(eith_tok(_o.get_success_unsafe())); }};
+  mark(tok(e));
+  g_log.clear();
+  eith<T> const r{with_cat<T::copyable>(L.cat(0), e, [](auto &&x) { return fcppt::either::join(FWD(x)); })};
+  event_log const log{g_log};
+  slots_t sa;
+  sa.add(tok(e));
+  return finish(eith_tag(r), eith_slots(r), {sa.str()}, log);
+}
+
+template <typename T>
+std::string op_eithapply2(line_t const &L)
+{
+  need(L.args.size() == 2 && L.n(0) == 1 && L.n(1) == 1 && L.par.size() == 2);
+  auto a{mk_eith<T>(L.args[0].ids[0], L.par[0])};
+  auto b{mk_eith<T>(L.args[1].ids[0], L.par[1])};
+  mark(a);
+  mark(b);
+  g_log.clear();
+  eith<T> const r{with_cat<T::copyable>(
+      L.cat(0),
+      a,
+      [&](auto &&x)
+      { return with_cat<T::copyable>(L.cat(1), b, [&](auto &&y) { return fcppt::either::apply(first_of_two{}, FWD(x), FWD(y)); }); })};
+  event_log const log{g_log};
+  return finish(eith_tag(r), eith_slots(r), {eith_slots(a), eith_slots(b)}, log);
+}
+
+template <typename T>
+std::string op_eithseq(line_t const &L)
+{
+  need(L.args.size() == 1 && L.par.size() == L.n(0));
+  std::vector<eith<T>> v;
+  v.reserve(32);
+  for (std::size_t i = 0; i < L.n(0); ++i)
+    v.push_back(mk_eith<T>(L.args[0].ids[i], L.par[i]));
+  for (auto &e : v)
+    mark(e);
+  g_log.clear();
+  using res_t = fcppt::either::object<fail<T>, std::vector<T>>;
+  // only the rvalue instantiation exists: the requires-clause of either::sequence applies value_type to `Source` with its reference
+  need(L.cat(0) == 'r');
+  res_t const r{fcppt::either::sequence<std::vector<T>>(std::move(v))};
+  event_log const log{g_log};
+  slots_t sa, sr;
+  for (auto const &e : v)
+    sa.add(eith_tok(e));
+  if (r.has_success())
+    sr.add_range(r.get_success_unsafe());
+  else
+    sr.add(r.get_failure_unsafe().t);
+  return finish(r.has_success() ? "S" : "F", sr.str(), {sa.str()}, log);
+}
+
+template <typename T>
+std::string op_eithfirst(line_t const &L)
+{
+  need(L.args.empty());
+  std::vector<fcppt::function<eith<T>()>> fs;
+  int k{0};
+  for (int const m : L.par)
+  {
+    need(m == 0 || m == 1);
+    int const id{1000 + k++};
+    fs.push_back(fcppt::function<eith<T>()>{[m, id] { return mk_eith<T>(id, m); }});
+  }
+  g_log.clear();
+  auto const r{fcppt::either::first_success(fs)};
+  event_log const log{g_log};
+  slots_t sr;
+  if (r.has_success())
+    sr.add(r.get_success_unsafe());
+  else
+    for (auto const &f : r.get_failure_unsafe())
+      sr.add(f.t);
+  return finish(r.has_success() ? "S" : "F", sr.str(), {}, log);
+}
+
 // ---------------------------------------------------------------- dispatch
 
 template <typename T>
@@ -836,6 +1137,20 @@ std::string dispatch(std::string const &_op, line_t const &L)
     return op_opt2<T>(_op, L);
   if (_op == "optseq" || _op == "optcat")
     return op_optvec<T>(_op, L);
+  if (_op == "moveif" || _op == "moveifrv")
+    return op_moveif<T>(_op, L);
+  if (_op == "eithmap" || _op == "eithmapfail" || _op == "eithbind" || _op == "eithmatch" || _op == "eithsuccopt" || _op == "eithfailopt")
+    return op_eith1<T>(_op, L);
+  if (_op == "eithfromopt")
+    return op_eithfromopt<T>(L);
+  if (_op == "eithjoin")
+    return op_eithjoin<T>(L);
+  if (_op == "eithapply2")
+    return op_eithapply2<T>(L);
+  if (_op == "eithseq")
+    return op_eithseq<T>(L);
+  if (_op == "eithfirst")
+    return op_eithfirst<T>(L);
   throw bad_op{};
 }
 
